@@ -215,15 +215,10 @@ def check_python(report):
              "proto_type must be FieldDescriptorProto.Type.Name(self.field_pb.type) with the 'TYPE_' prefix stripped")
     # name
     nm = m.member(fld, "name")
-    rets = [n for n in ast.walk(nm.node) if isinstance(n, ast.Return)]
     r6.instance("Field.name")
-    ok = False
-    if len(rets) == 1 and isinstance(rets[0].value, ast.IfExp):
-        ie = rets[0].value
-        ok = (ast.unparse(ie.body) == "name + '_'" and ast.unparse(ie.orelse) == "name"
-              and ast.unparse(ie.test) == "name in utils.RESERVED_NAMES and self.meta.address.is_proto_plus_type")
-        assigns = [n for n in ast.walk(nm.node) if isinstance(n, ast.Assign) and ast.unparse(n.targets[0]) == "name"]
-        ok = ok and len(assigns) == 1 and ast.unparse(assigns[0].value) == "self.field_pb.name"
+    from ..pymodel import nmatch
+    bb = nmatch(m, "_ANYN_ + '_' if _ANYN_ in utils.RESERVED_NAMES and self.meta.address.is_proto_plus_type else _ANYN_", m.func("gapic.schema.wrappers.Field.name"))
+    ok = bb is not None and bb["_ANYN_"] == "self.field_pb.name"
     r6.check(ok, wr, nm.node.lineno, "Field.name",
              "Field.name must be field_pb.name, plus exactly one '_' iff the name is reserved and the type is proto-plus")
     # pass-throughs not shadowed
@@ -269,11 +264,28 @@ def check_python(report):
     # orphan pass raises on unresolved type
     pb = m.cls("gapic.schema.api._ProtoBuilder")
     init = m.member(pb, "__init__")
-    src = ast.unparse(init.node)
     r6.instance("orphan-field pass")
-    raises = [n for n in ast.walk(init.node) if isinstance(n, ast.Raise)]
-    r6.check("orphan_field_gen" in src and any("TypeError" in ast.unparse(r) for r in raises), init.module.path if hasattr(init, "module") else lm.module.path,
-             init.node.lineno, "_ProtoBuilder.__init__ orphan pass", "the late-resolution pass must raise on a field whose type is in neither table")
+    from .common_rules import stmt_guards, local_env
+    ifi = m.func("gapic.schema.api._ProtoBuilder.__init__")
+    env = local_env(ifi.node)
+    found = False
+    for guards, st in stmt_guards(ifi.node, env):
+        if not (isinstance(st, ast.Raise) and st.exc is not None and ast.unparse(st.exc).startswith("TypeError(")):
+            continue
+        fors = [g for g in guards if g[0] == "for"]
+        fl = [g for g in fors if g[2].endswith(".fields.values()")]
+        if not (any(g[2] == "self.proto_messages.values()" for g in fors) and fl):
+            continue
+        F = fl[0][1]
+        KEY = f"{F}.type_name.lstrip('.')"
+        facts = {g for g in guards if g[0] != "for"}
+        want = {(f"{F}.type_name", True), (f"{F}.message", False), (f"{F}.enum", False),
+                (f"self.proto_messages.get({KEY})", False), (f"self.proto_enums.get({KEY})", False)}
+        alt = {(f"OR({F}.enum; {F}.message)", False)}      # `not (f.message or f.enum)` written as one test
+        found = found or want <= facts or (want - {(f"{F}.message", False), (f"{F}.enum", False)}) | alt <= facts
+    r6.check(found, ifi.module.path, init.node.lineno, "_ProtoBuilder.__init__ orphan pass",
+             "the late-resolution pass must raise TypeError on a field of any message of the file whose type name is set, is not yet "
+             "resolved, and is in neither the message nor the enum table")
 
 
 def check_rel(report):
